@@ -33,13 +33,9 @@ func init() {
 func runC01(c *Ctx) {
 	c01RecordAll(c)
 	{
-		var pkgs []*packages.Package
-		for _, rel := range []string{"private/bufpkg/bufmodule", "private/bufpkg/bufimage"} {
-			if q := c.P.Pkg(rel); q != nil {
-				pkgs = append(pkgs, q)
-			}
-		}
-		ruleCopyCtorComplete(c, "COPY-COMPLETE", pkgs, 1)
+		// module-wide: any field-by-field copy in the module (modules, module read buckets, image files, configs)
+		pkgs := c.P.ModulePkgs()
+		ruleCopyCtorComplete(c, "COPY-COMPLETE", pkgs, 2)
 		c01KeyByFullName(c)
 		c01WarningsAllFiles(c)
 		ruleClosureFollowsAll(c, "CLOSURE-FOLLOWS-ALL")
